@@ -34,6 +34,10 @@ for pid in ids:
         text.append("State: %s" % "; ".join("%s (%s) @ %s" % (m["name"], m.get("meaning", ""), m["where"]) for m in a["state"]))
     body = "\n".join(text)
     feat = "unless the property itself is about feature sets" 
+    dirs = directions
+    if "{UNTOUCHED}" in dirs:
+        up = "/tmp/untouched_%s.txt" % pid
+        dirs = dirs.replace("{UNTOUCHED}", open(up).read() if os.path.exists(up) else "(none)")
     prompt = f"""You are working in your own scratch git worktree of the a4lg/ffuzzy repository: {wt}  (a pure-Rust ssdeep-compatible fuzzy hashing library; crate in {wt}/ffuzzy, lib name `ssdeep`). Work ONLY inside {wt}. Never read or touch /repo or /verif. There is no network; use `--offline` with cargo.
 
 Your job: act as a mutation author. Produce realistic changes to the library's NON-test source code (under ffuzzy/src, not the `tests.rs` / `tests/` files, not `#[cfg(test)]` code) that BREAK the property below, while the crate still compiles and the repository's existing test suite still passes completely (198 tests):
@@ -52,7 +56,7 @@ Requirements for each change:
 * Prefer changes in default-feature code so the existing suite compiles them; changes in feature-gated code are acceptable only if the property is about build features.
 
 IMPORTANT - all of the following ideas have ALREADY been produced by other authors for this property; do NOT repeat them or close variants: {used}.
-{directions}
+{dirs}
 
 Produce up to 2 different changes (different code sites / mechanisms); one good one is better than two weak ones. For each, create a directory {wt}/_seed/<short-name>/ containing:
   - patch.diff : `git diff` of the source change only (must apply with `git apply patch.diff` at the worktree root on a clean checkout of HEAD)
